@@ -39,6 +39,7 @@ type Obligation struct {
 func (o *Obligation) Name() string { return o.Prop + "/" + o.Func + "/" + o.Clause }
 
 type Verifier struct {
+	calledAsked map[string]bool // "func :: callee" -> recorded on some path (vacuity audit)
 	eng           *Engine
 	cs            *ContractSet
 	prog          *ssa.Program
@@ -72,6 +73,19 @@ type Verifier struct {
 }
 
 func (v *Verifier) note(s string) { v.notes[s] = true }
+
+// calledName: bookkeeping for the vacuity audit of called()/callres() names (see eval.go)
+func (v *Verifier) calledName(base string, found bool) {
+	if v.calledAsked == nil {
+		v.calledAsked = map[string]bool{}
+	}
+	k := v.curFn + " :: " + base
+	if found {
+		v.calledAsked[k] = true
+	} else if _, ok := v.calledAsked[k]; !ok {
+		v.calledAsked[k] = false
+	}
+}
 
 // writes to cells that existed before the activation under verification (for frame clauses)
 func (v *Verifier) noteWrite(h *Term) { v.noteWriteP(Ptr{H: h}) }
